@@ -228,6 +228,8 @@ impl NtpDuration {
 
     pub fn from_seconds(seconds: f64) -> Self {
         debug_assert!(!(seconds.is_nan() || seconds.is_infinite()));
+        #[cfg(pendulum_project_ntpd_rs_verif)]
+        verif_hook::note_from_seconds(seconds);
 
         let i = seconds.floor();
         let f = seconds - i;
